@@ -48,6 +48,13 @@ var smallLens = []int{0, 1, 2, 3, 5, 8, 16, 31}
 var edgeLens = []int{127, 128, 129, 255, 256, 300}
 var hugeLens = []int{16383, 16384, 65534, 65535}
 
+// lengths around which an implementation may change strategy (a cache, a pooled buffer, a window instead of a copy)
+var thresholdLens = []int{1023, 1024, 1025, 2048, 4095, 4096, 4097, 8192, 32767, 32768, 32769}
+
+// strings that mean something to MQTT or to a renderer (inside the ASCII subset the modelled renderer covers)
+var wordDict = []string{"$share/g/t", "$share/", "$SYS/#", "#", "+", "a/+/b", "/", "MQTT", "MQIsdp", "mqtt", "password", "user",
+	"%s", "%d%n", "\"quoted\"", "a b", "k", "=", ":", ";", ",", "[]", "nil", "true", "0"}
+
 func (g *gen) strLen() int {
 	x := g.r.Float64()
 	switch {
@@ -56,6 +63,9 @@ func (g *gen) strLen() int {
 	case x < 0.96:
 		return edgeLens[g.r.Intn(len(edgeLens))]
 	default:
+		if g.chance(0.35) {
+			return thresholdLens[g.r.Intn(len(thresholdLens))]
+		}
 		if g.big || g.chance(0.6) {
 			return hugeLens[g.r.Intn(len(hugeLens))]
 		}
@@ -79,8 +89,16 @@ func (g *gen) bytesN(n int) []byte {
 	}
 	return b
 }
-func (g *gen) bytes() []byte { return g.bytesN(g.strLen()) }
+func (g *gen) bytes() []byte {
+	if g.chance(0.06) {
+		return []byte(wordDict[g.r.Intn(len(wordDict))])
+	}
+	return g.bytesN(g.strLen())
+}
 func (g *gen) nonEmpty() []byte {
+	if g.chance(0.06) {
+		return []byte(wordDict[g.r.Intn(len(wordDict))])
+	}
 	n := g.strLen()
 	if n == 0 {
 		n = 1
